@@ -50,7 +50,10 @@ impl OperationControl for Repeat {
 
     fn optimize(self, flags: &ReFlags) -> Operation {
         let operation = self.operation.optimize(flags);
-        let min = if self.min == 0 && operation.matches_empty_string() == MATCHES_ZLS_ANYWHERE {
+        let min = if self.min == 0
+            && self.greedy
+            && operation.matches_empty_string() == MATCHES_ZLS_ANYWHERE
+        {
             // turns (a?)* into (a?)+
             1
         } else {
